@@ -66,6 +66,13 @@ CLAIMED["C05"] = ("4/C05", "Real DateTimeZone.map_local over a symbolic zone (2 
                   "mapping; ZonedDateTime + Duration re-derives the offset; at_start_of_day (thorough). Local date-times are real LocalDateTime "
                   "values over DayCalendar.",
                   "the >= 3-day interval assumption is re-measured from the bundled tz database on every run (labelled premise); zones violating it are outside the claim")
+CLAIMED["C13"] = ("4/C13", "Sequential histories: the generic year-start cache as one inductive step from an arbitrary valid slot state over an "
+                  "abstract calculator (any aliasing year, or the invalid entry) plus the entry packing lemma; the caching zone-interval map over a "
+                  "symbolic zone for ANY two queries hitting the same slot (same or aliasing period, either order) and a repeat; the "
+                  "least-recently-added _Cache for every sequence of 4 lookups over 3 keys with a monitor lock; calendar singletons / year ranges "
+                  "as a labelled premise.",
+                  "the schedule dimension (interleavings of up to 16 threads) is OUTSIDE the claim: this technique family has no thread model for Python; "
+                  "only the lock discipline on sequential paths is observed")
 NOT_BUILT = {}
 
 NA_REASON = "check not built yet in this round (design in DESIGN.md section 4); no claim is made"
